@@ -403,6 +403,8 @@ const preamble = `(declare-datatypes ((Ptr 0)) (((zz_nilptr) (zz_new (zz_new_id 
 (declare-datatypes ((Slice 0)) (((zz_mkslice (zz_sl_base Ptr) (zz_sl_off Int) (zz_sl_len Int) (zz_sl_cap Int)))))
 (declare-sort Iface 0)
 (declare-sort Fn 0)
+(define-sort StrSet () (Array String Bool))
+(define-sort StrVals () (Array String Iface))
 (declare-fun zz_ifnil () Iface)
 (declare-fun zz_fnnil () Fn)
 (declare-fun zz_dyn (Iface) Int)
